@@ -66,3 +66,6 @@ schema('core.matcher.MatcherList', positive='List(%s)' % M_, negative='List(%s)'
 schema('core.matcher.ArgsMatcherList', positive='List(%s)' % M_, negative='List(%s)' % M_)
 schema('core.matcher.MessagePattern', conn_matcher=M_, obj_matcher=M_, name_matcher=M_, args_matcher=M_,
        match_new='bool', match_destroyed='bool')
+
+schema('backends.libwayland_debug_output.parse.Parser', out='Obj("core.output.output.Output")',
+       sink='Obj("interfaces.connection_id_sink.ConnectionIDSink")', known_connections='Set(str)', last_time='float')
